@@ -161,6 +161,8 @@ def all_ev(p, *names):
 
 def res_ok(ob, p, e):
     """pc => e returned Ok"""
+    if e is None:
+        return False
     return ob.eng.prove(p, e.ret.discriminant() == 0)[0]
 
 
